@@ -7,10 +7,10 @@ cd "$WT" || exit 2
 git checkout -q -- . ; git checkout -q --detach "$(git -C /repo rev-parse HEAD)" || exit 2
 if ! git apply --3way "$D/patch.diff" 2>/dev/null; then echo "$P-$K: patch does not apply to /repo HEAD"; git reset -q --hard HEAD; exit 1; fi
 git diff HEAD > "$D/patch_rebased.diff"
-OUT=$(cd /verif && VERIF_REPO=$WT VERIF_SEED=1 ./check $P 2>&1 | grep -E "^VIOLATION|done:" | tr '\n' ' ' | sed 's/  */ /g' | cut -c1-300)
+OUT=$(cd ${VERIF_DIR:-/verif} && VERIF_REPO=$WT VERIF_SEED=1 ./check $P 2>&1 | grep -E "^VIOLATION|done:" | tr '\n' ' ' | sed 's/  */ /g' | cut -c1-300)
 git reset -q --hard HEAD
 # the run above rewrote evidence/ and Generated/ from the MUTANT tree: put the committed (clean-tree) versions back
-git -C /verif checkout -q -- evidence lean/CoapVerif/Generated
+git -C ${VERIF_DIR:-/verif} checkout -q -- evidence lean/CoapVerif/Generated
 echo "$P-$K check: $OUT"
 CONF=$(/verif/tools/confirm_seed.sh "$WT" "$D" patch_rebased.diff | tr '\n' ' ')
 echo "$P-$K confirm: $CONF"
